@@ -5,17 +5,20 @@ from engine import flow as fl, ru, paths as pa, expr
 from rules.C11 import pattern_class, first_byte_table
 
 EXPLANATION = (
-    "Three structural clauses of the dynamic-table QPACK code are decided on the MIR: (a) DynamicTable::insert adds to "
+    "Structural clauses of the dynamic-table QPACK code are decided on the MIR: (a) DynamicTable::insert adds to "
     "curr_size and pushes the field only on paths where can_free(field.mem_size()) succeeded and evict() was called with "
     "the count it returned; (b) evict() is called only with a count produced by can_free (who-may-call + flow), and in "
     "can_free an entry is counted evictable only on iterations where is_tracked() answered false; (c) for the seven "
     "encoder/decoder-stream instructions the (prefix size, flags) written by encode is accepted by the decision list "
     "extracted from decode, both equal RFC 9204 4.3/4.4, and the two first-byte classifiers equal the RFC's over all "
-    "256 values. Agreement of encoder and decoder over histories, blocking semantics and index arithmetic are "
+    "256 values; (d) the section-prefix codec (Required Insert Count wrap-around and Base) extracted from "
+    "HeaderPrefix::new/get is evaluated over every small table state: get() must invert new() whenever the decoder's insert "
+    "count is within MaxEntries of the required count, and the reconstruction must equal RFC 9204 4.5.1.1 on every valid "
+    "encoding. Agreement of encoder and decoder over histories, blocking semantics and index arithmetic are "
     "value-level and NOT decided.")
 # every anchor of these rules lives in the h3 crate: thorough tier repeats them on the feature-less build
 EXTRA_CONFIGS = ["h3-plain"]
-RULES = "C20-a capacity guard (A2/A3); C20-b eviction guarded by references (A3/A4/A10); C20-c instruction codecs (A11 + decision lists)"
+RULES = "C20-a capacity guard (A2/A3); C20-b eviction guarded by references, scan stops at the first referenced entry (A3/A4/A10); C20-c instruction codecs (A11 + decision lists); C20-d section prefix: get() inverts new() and equals RFC 9204 4.5.1.1 over small table states (extracted-expression evaluation)"
 
 HERE = os.path.dirname(os.path.dirname(os.path.abspath(__file__)))
 WIRE = json.load(open(os.path.join(HERE, "ref", "rfc9204_wire_formats.json")))
@@ -92,6 +95,19 @@ def run(ctx):
                           "an iteration increments `evictable` without is_tracked(..) == false on its path (tests: %s)"
                           % [(t[1][:50], t[2]) for t in p.tests], "", None, p.describe())
         ctx.floor("C20-b", "iterations of can_free that count an entry", n, 1)
+    # the scan stops at the first referenced entry: eviction is FIFO, so entries behind a referenced one must not be counted
+    if cf:
+        n_tr = 0
+        for h in heads:
+            for p in ex.paths(start=h, stop_at=heads):
+                tr = [t for t in p.tests if pa.head_call(t[3])[0] == D + "is_tracked"]
+                if len(tr) == 1 and tr[0][2] == "true":
+                    n_tr += 1
+                    ctx.check(p.end != "stop", "C20-b", cf.key, "the scan stops at the first referenced entry",
+                              "when it meets an entry that is still referenced, can_free continues with the next entry instead of stopping: "
+                              "evict(n) pops the n OLDEST entries, so the referenced entry is evicted while an unacknowledged section still "
+                              "needs it", "", None, p.describe())
+        ctx.floor("C20-b", "iterations meeting a referenced entry", n_tr, 1)
     it = ru.need(ctx, "C20-b", D + "is_tracked")
     if it:
         ps = [p for p in ru.all_paths(ctx, "C20-b", it) if p.end == "return"]
@@ -170,4 +186,91 @@ def run(ctx):
             sz = {expr.fold(e[3][0]) for p in ru.all_paths(ctx, "C20-c", b) for e in p.calls(callee)}
             ctx.check(sz == {8}, "C20-c", b.key, "value string uses a 7-bit length with H at bit 7",
                       "InsertWithNameRef::%s uses string prefix sizes %s" % (side, sorted(sz)), "8")
-    ctx.assume("C20 is claimed for these three structural clauses only; agreement over histories is not decided")
+    # ------------------------------------------------------------ C20-d section prefix: get() inverts new() (sibling agreement, small domain)
+    g = ru.need(ctx, "C20-d", Q + "block::HeaderPrefix::get")
+    nw = ru.need(ctx, "C20-d", Q + "block::HeaderPrefix::new")
+    if g and nw:
+        gps = [p for p in ru.all_paths(ctx, "C20-d", g) if p.end == "return"]
+        nps = [p for p in ru.all_paths(ctx, "C20-d", nw) if p.end == "return"]
+
+        def ev_new(required, base, total, size):
+            def sub(v):
+                for i, x in ((1, required), (2, base), (3, total), (4, size)):
+                    if v == ("param", i, ()):
+                        return x
+                return None
+            outs = set()
+            for p in expr.decide(nps, consts, sub):
+                r = p.ret
+                if r[0] == "agg" and len(r[3]) == 3:
+                    outs.add(tuple(expr.fold(x, consts, sub) for x in r[3]))
+                else:
+                    outs.add(None)
+            return outs
+
+        def ev_get(enc, sign, delta, total, size):
+            def sub(v):
+                if v[0] == "param" and v[1] == 1:
+                    nm = "".join(v[2])
+                    return {".encoded_insert_count": enc, ".sign_negative": sign, ".delta_base": delta}.get(nm)
+                if v == ("param", 2, ()):
+                    return total
+                if v == ("param", 3, ()):
+                    return size
+                return None
+            outs = set()
+            for p in expr.decide(gps, consts, sub):
+                if p.ret_shape().startswith("Ok") and p.ret[3] and p.ret[3][0][0] == "agg":
+                    outs.add(tuple(expr.fold(x, consts, sub) for x in p.ret[3][0][3]))
+                else:
+                    outs.add("err")
+            return outs
+
+        def rfc_ric(enc, total, maxe):
+            # RFC 9204 4.5.1.1 reconstruction of the Required Insert Count
+            full = 2 * maxe
+            if enc == 0:
+                return 0
+            if enc > full:
+                return "err"
+            maxv = total + maxe
+            r = (maxv // full) * full + enc - 1
+            if r > maxv:
+                if r <= full:
+                    return "err"
+                r -= full
+            return "err" if r == 0 else r
+        bad, n = [], 0
+        for maxe in (1, 2, 3, 4):
+            size = 32 * maxe
+            for enc_total in range(1, 9):
+                for required in range(max(1, enc_total - maxe + 1), enc_total + 1):
+                    for base in sorted({0, required - 1, required, required + 1, enc_total} - {-1}):
+                        pre = ev_new(required, base, enc_total, size)
+                        if len(pre) != 1 or None in pre or None in next(iter(pre)):
+                            bad.append(("new", maxe, enc_total, required, base, pre))
+                            continue
+                        enc, sign, delta = next(iter(pre))
+                        for dec_total in range(max(0, required - maxe), required + maxe):
+                            n += 1
+                            got = ev_get(enc, sign, delta, dec_total, size)
+                            if got != {(required, base)}:
+                                bad.append(("get", maxe, "decoder has %d inserts" % dec_total, "required %d base %d" % (required, base), "prefix %s" % ((enc, sign, delta),), got))
+        ctx.check(not bad, "C20-d", g.key, "section prefix decoded by get() = what new() encoded, for every small table state (%d cases)" % n,
+                  "HeaderPrefix::get does not invert HeaderPrefix::new: %d of %d cases differ, e.g. %s - a header block that overtakes (or lags) its "
+                  "encoder instructions is decoded against the wrong entries instead of being recognised as blocked" % (len(bad), n, bad[:2]),
+                  "%d round trips over max_entries 1..4" % n)
+        badr, m = [], 0
+        for maxe in (1, 2, 3, 4):
+            for total in range(0, 12):
+                for enc in range(0, 2 * maxe + 1):
+                    want = rfc_ric(enc, total, maxe)
+                    if want == "err":
+                        continue
+                    m += 1
+                    got = ev_get(enc, 0, 0, total, 32 * maxe)
+                    if {x[0] if x != "err" else x for x in got} != {want}:
+                        badr.append((maxe, total, enc, got, want))
+        ctx.check(not badr, "C20-d", g.key, "Required Insert Count reconstruction = RFC 9204 4.5.1.1 on every valid encoding (%d cases)" % m,
+                  "reconstruction differs from RFC 9204 4.5.1.1 for (max_entries, total inserts, encoded count) = %s" % badr[:3], "%d cases" % m)
+    ctx.assume("C20 is claimed for these structural clauses only; agreement of the two tables over long histories is not decided")
